@@ -315,6 +315,35 @@ def check_render(which, nbest_batch, domain_c19, ctx):
             return
 
 
+def check_history(which):
+    """C18: what a rendering prints does not depend on what was rendered before it (in the same or another format).  The batch mixes the failure placeholder -
+    whose token carries nothing but the word - with annotated sentences, so a default leaking from one token to the next shows."""
+    fmts = formats_for(which)
+    for rep in range(6 if tier == 'quick' else 60):
+        a = make_nbest(which, grammar_based=True, adversarial=False, k=1, rich=True)
+        b = make_nbest(which, grammar_based=True, adversarial=False, k=1, rich=True)
+        if a is None or b is None:
+            continue
+        batch = [T.placeholder(), a, T.placeholder()]
+        for f in fmts:
+            stats['renders'] += 3
+            try:
+                first = T.to_string(copy.deepcopy(batch), format=f)
+            except Exception:       # noqa  (C19's business)
+                continue
+            try:
+                T.to_string(copy.deepcopy([b, a]), format=f)
+                T.to_string(copy.deepcopy([b]), format=rng.choice(fmts))
+                again = T.to_string(copy.deepcopy(batch), format=f)
+            except Exception as e:       # noqa
+                again = ('raised', type(e).__name__)
+            if again != first:
+                diff = next((i for i, (x, y) in enumerate(zip(first, again)) if x != y), 0) if isinstance(again, str) else 0
+                fail('C18', 'output depends on what was rendered before', format=f, lang=which, first=first[max(0, diff - 80):diff + 80],
+                     again=again[max(0, diff - 80):diff + 80] if isinstance(again, str) else list(again), between=T.auto.auto_of(b[0].tree)[:200])
+                return
+
+
 def check_all_formats(which, nbest_batch, ctx):
     for f in formats_for(which):
         stats['renders'] += 1
@@ -760,6 +789,9 @@ def main():
             stats['distinct'].add(ctx['first'])
             check_render(which, batch, grammar_based, ctx)
             check_codecs(which, copy.deepcopy(batch), grammar_based, ctx)
+    for which in ('en', 'ja'):
+        T.lang.set_global_language_to(which)
+        check_history(which)
     import shutil
     shutil.rmtree(TMP, ignore_errors=True)
     print(json.dumps(dict(evaluations=stats['n'], distinct_nontrivial=len(stats['distinct']), trees=stats['trees'], renderings=stats['renders'],
@@ -767,6 +799,7 @@ def main():
                           rule=(f'per language {N} seeded batches (1-3 sentences x 1-3 n-best trees over shared token objects): half grammar-licensed derivations built with the real rule functions '
                                 'over small lexicons and the shipped unary tables, a quarter arbitrary trees with both head directions, a quarter with adversarial tokens (brackets, quotes, slashes, '
                                 '< > &, non-ASCII); every label of the grammars and the failure placeholder in every CLI format except ccg2lambda / jigg_xml_ccg2lambda; '
+                                'history: the batch [placeholder, annotated sentence, placeholder] rendered before and after other batches in every format; '
                                 'distinct_nontrivial = distinct first derivations'))))
 
 
